@@ -96,6 +96,7 @@ class BaseClient:
         self.handlers = {}
         self.namespace_handlers = {}
         self.callbacks = {}
+        self.callback_ids = {}
         self._binary_packet = None
         self._connect_event = None
         self._reconnect_task = None
@@ -276,9 +277,11 @@ class BaseClient:
     def _generate_ack_id(self, namespace, callback):
         """Generate a unique identifier for an ACK packet."""
         namespace = namespace or '/'
+        if namespace not in self.callback_ids:
+            self.callback_ids[namespace] = itertools.count(1)
+        id = next(self.callback_ids[namespace])
         if namespace not in self.callbacks:
-            self.callbacks[namespace] = {0: itertools.count(1)}
-        id = next(self.callbacks[namespace][0])
+            self.callbacks[namespace] = {}
         self.callbacks[namespace][id] = callback
         return id
 
